@@ -10,7 +10,9 @@ import (
 	"strconv"
 	"strings"
 	"sync"
+	"sync/atomic"
 	"testing"
+	"time"
 
 	"github.com/uber/kraken/lib/healthcheck"
 	"github.com/uber/kraken/utils/stringset"
@@ -40,20 +42,70 @@ func c23Tok(addr string) string {
 	return "a?" + verifh.Str(addr)
 }
 
+// c23Checker is scripted per Run; Check is called from one goroutine per host and does not
+// serialise the callers (the filter's own state mutex is what is exercised, -race in thorough).
 type c23Checker struct {
-	mu      sync.Mutex
-	ok      map[string]bool
-	checked []string
+	script  atomic.Value // *c23Script
+	checked [c23NumHosts]int32
+}
+
+type c23Script struct {
+	ok    map[string]bool
+	block map[string]bool // the check hangs until the Run's timeout
+}
+
+func (c *c23Checker) set(s *c23Script) {
+	c.script.Store(s)
+	for i := range c.checked {
+		atomic.StoreInt32(&c.checked[i], 0)
+	}
+}
+
+func (c *c23Checker) checkedAddrs() []string {
+	var out []string
+	for i := range c.checked {
+		if atomic.LoadInt32(&c.checked[i]) != 0 {
+			out = append(out, c23Addr(i))
+		}
+	}
+	return out
 }
 
 func (c *c23Checker) Check(ctx context.Context, addr string) error {
-	c.mu.Lock()
-	defer c.mu.Unlock()
-	c.checked = append(c.checked, addr)
-	if c.ok[addr] {
+	s := c.script.Load().(*c23Script)
+	for i := 0; i < c23NumHosts; i++ {
+		if c23Addr(i) == addr {
+			atomic.AddInt32(&c.checked[i], 1)
+		}
+	}
+	if s.block[addr] {
+		<-ctx.Done()
+		return ctx.Err()
+	}
+	if s.ok[addr] {
 		return nil
 	}
 	return errors.New("scripted failure")
+}
+
+// c23Parse reads "a0:1,a1:0,a2:t".
+func c23Parse(tok string) (stringset.Set, *c23Script, bool) {
+	addrs := stringset.New()
+	sc := &c23Script{ok: map[string]bool{}, block: map[string]bool{}}
+	for _, e := range verifh.Unlist(tok) {
+		parts := strings.Split(e, ":")
+		if len(parts) != 2 || (parts[1] != "0" && parts[1] != "1" && parts[1] != "t") {
+			return nil, nil, false
+		}
+		h, ok := c23Host(parts[0])
+		if !ok {
+			return nil, nil, false
+		}
+		addrs.Add(c23Addr(h))
+		sc.ok[c23Addr(h)] = parts[1] == "1"
+		sc.block[c23Addr(h)] = parts[1] == "t"
+	}
+	return addrs, sc, true
 }
 
 func c23Int(cfg []string, key string) (int, bool) {
@@ -86,35 +138,30 @@ func c23Exec(t *verifh.T, c verifh.Case) {
 	if !ok1 || !ok2 {
 		return
 	}
+	// timeout=<ms> (optional): the per-Run check timeout; cases with hanging checks set it small
+	timeout, _ := c23Int(c.Cfg, "timeout")
 	chk := &c23Checker{}
-	f := healthcheck.NewFilter(healthcheck.FilterConfig{Fails: fails, Passes: passes}, chk)
+	f := healthcheck.NewFilter(healthcheck.FilterConfig{
+		Fails: fails, Passes: passes, Timeout: time.Duration(timeout) * time.Millisecond}, chk)
 	t.Cfg(c.Cfg...)
 	do := func(op []string) {
 		if len(op) != 3 || op[0] != "op" || op[1] != "run" {
 			return
 		}
-		addrs := stringset.New()
-		okm := map[string]bool{}
-		for _, e := range verifh.Unlist(op[2]) {
-			parts := strings.Split(e, ":")
-			if len(parts) != 2 || (parts[1] != "0" && parts[1] != "1") {
-				return
-			}
-			h, ok := c23Host(parts[0])
-			if !ok {
-				return
-			}
-			addrs.Add(c23Addr(h))
-			okm[c23Addr(h)] = parts[1] == "1"
+		addrs, sc, ok := c23Parse(op[2])
+		if !ok {
+			return
 		}
-		chk.mu.Lock()
-		chk.ok, chk.checked = okm, nil
-		chk.mu.Unlock()
+		if timeout <= 0 || timeout > 200 {
+			for _, b := range sc.block {
+				if b {
+					return // a hanging check needs a small timeout
+				}
+			}
+		}
+		chk.set(sc)
 		healthy := f.Run(addrs)
-		chk.mu.Lock()
-		checked := append([]string(nil), chk.checked...)
-		chk.mu.Unlock()
-		t.Op(op[1:], c23Sorted(healthy.ToSlice()), c23Sorted(checked))
+		t.Op(op[1:], c23Sorted(healthy.ToSlice()), c23Sorted(chk.checkedAddrs()))
 	}
 	for _, op := range c.Ops {
 		if p := verifh.Protect(func() { do(op) }); p != "" {
@@ -167,6 +214,9 @@ func TestVerif_C23(t *testing.T) {
 			exhaust("one_host", c23Cfg(fails, passes), alphaOne, verifh.Scale(5, 7))
 		}
 	}
+	// (a1') a hung host: the check blocks until the per-Run timeout (30 ms) and counts as failed
+	alphaHang := [][]string{c23Run("a0:1", "a1:1"), c23Run("a0:0", "a1:1"), c23Run("a0:t", "a1:1")}
+	exhaust("hung_host", append(c23Cfg(2, 1), "timeout=30"), alphaHang, verifh.Scale(4, 5))
 	// (a2) two hosts moving independently (each absent / passing / failing), a third sometimes there
 	var alphaTwo [][]string
 	for _, e0 := range []string{"", "a0:1", "a0:0"} {
@@ -214,6 +264,10 @@ func TestVerif_C23(t *testing.T) {
 					es = append(es, fmt.Sprintf("a%d:%s", h, verifh.Bool(r.Chance(okProb[h], 10))))
 				}
 			}
+			if verifh.Thorough() && i%400 == 0 && len(es) > 1 && r.Chance(1, 8) {
+				es[0] = es[0][:len(es[0])-1] + "t" // a hung check (these cases run with timeout=30)
+				tr.Count("random_hung_check", 1)
+			}
 			if r.Chance(1, 50) {
 				es = append(es, "a9:1") // malformed: unknown host, the executor skips the record
 				tr.Count("random_malformed", 1)
@@ -221,11 +275,225 @@ func TestVerif_C23(t *testing.T) {
 			ops = append(ops, c23Run(es...))
 			tr.Count(fmt.Sprintf("random_round_size_%d", len(es)), 1)
 		}
-		cs := verifh.Case{Cfg: c23Cfg(fails, passes), Ops: ops}
+		cfg := c23Cfg(fails, passes)
+		if verifh.Thorough() && i%400 == 0 {
+			cfg = append(cfg, "timeout=30")
+		}
+		cs := verifh.Case{Cfg: cfg, Ops: ops}
 		if i < 2 {
 			tr.Sample(fmt.Sprint(cs.Cfg, cs.Ops))
 		}
 		c23Exec(tr, cs)
+		tr.Count("random_cases", 1)
+	}
+}
+
+// TestVerif_C23Race is the part of the filter harness that the thorough tier builds with -race: random
+// histories in which every Run updates the filter state from one goroutine per host.
+func TestVerif_C23Race(t *testing.T) {
+	tr := verifh.Open("hc")
+	defer tr.Close()
+	if _, replayOnly := verifh.InputCases("hc"); replayOnly {
+		return
+	}
+	r := verifh.NewRand(verifh.Seed(), "c23race")
+	for i := 0; i < 4000; i++ {
+		var ops [][]string
+		for j := 5 + r.Intn(20); j > 0; j-- {
+			var es []string
+			for h := 0; h < c23NumHosts; h++ {
+				if r.Chance(4, 5) {
+					es = append(es, fmt.Sprintf("a%d:%s", h, verifh.Bool(r.Chance(1, 2))))
+				}
+			}
+			ops = append(ops, c23Run(es...))
+		}
+		c23Exec(tr, verifh.Case{Cfg: c23Cfg(1+r.Intn(3), 1+r.Intn(3)), Ops: ops})
+		tr.Count("race_cases", 1)
+	}
+}
+
+// ---------------------------------------------------------------- Monitor (machine hcm)
+
+// c23Gate records what the monitor hands to the real filter and tells the harness when a loop
+// iteration's Run has finished.
+type c23Gate struct {
+	inner healthcheck.Filter
+	ran   chan stringset.Set
+	hosts *c23Hosts
+}
+
+func (g *c23Gate) Run(addrs stringset.Set) stringset.Set {
+	if g.hosts.isOpen() {
+		return addrs.Copy() // shutting down
+	}
+	out := g.inner.Run(addrs)
+	g.ran <- addrs.Copy()
+	return out
+}
+
+// c23Hosts is the monitored host list. The monitor's loop resolves it at the start of every
+// iteration: that call (every call but the constructor's) waits for the harness's permission,
+// which is how the harness steps the loop one iteration at a time.
+type c23Hosts struct {
+	mu     sync.Mutex
+	set    stringset.Set
+	calls  int
+	open   bool
+	permit chan struct{}
+}
+
+func (l *c23Hosts) isOpen() bool {
+	l.mu.Lock()
+	defer l.mu.Unlock()
+	return l.open
+}
+
+func (l *c23Hosts) Resolve() stringset.Set {
+	l.mu.Lock()
+	l.calls++
+	first, open := l.calls == 1, l.open
+	l.mu.Unlock()
+	if !first && !open {
+		<-l.permit
+	}
+	l.mu.Lock()
+	defer l.mu.Unlock()
+	return l.set.Copy()
+}
+
+func c23MonExec(t *verifh.T, c verifh.Case) {
+	fails, ok1 := c23Int(c.Cfg, "fails")
+	passes, ok2 := c23Int(c.Cfg, "passes")
+	if !ok1 || !ok2 {
+		return
+	}
+	chk := &c23Checker{}
+	chk.set(&c23Script{ok: map[string]bool{}, block: map[string]bool{}})
+	hosts := &c23Hosts{set: stringset.New(), permit: make(chan struct{})}
+	gate := &c23Gate{
+		inner: healthcheck.NewFilter(healthcheck.FilterConfig{Fails: fails, Passes: passes}, chk),
+		ran:   make(chan stringset.Set, 1), hosts: hosts,
+	}
+	var mon *healthcheck.Monitor
+	start := func() {
+		if mon == nil {
+			mon = healthcheck.NewMonitor(healthcheck.MonitorConfig{Interval: time.Millisecond}, hosts, gate)
+		}
+	}
+	t.Cfg(c.Cfg...)
+	do := func(op []string) {
+		if len(op) < 2 || op[0] != "op" {
+			return
+		}
+		switch {
+		case op[1] == "hosts" && len(op) == 3:
+			addrs, sc, ok := c23Parse(op[2])
+			if !ok {
+				return
+			}
+			for _, b := range sc.block {
+				if b {
+					return
+				}
+			}
+			hosts.mu.Lock()
+			hosts.set = addrs
+			hosts.mu.Unlock()
+			chk.set(sc)
+			t.Op(op[1:], "ok")
+		case op[1] == "tick" && len(op) == 2:
+			start()
+			hosts.permit <- struct{}{}
+			input := <-gate.ran
+			// the loop stores the result right after Run returns: wait (bounded) until Resolve shows
+			// a set that differs from the one before, or settle for what it shows after 200 ms
+			var got string
+			deadline := time.Now().Add(200 * time.Millisecond)
+			prev := ""
+			for {
+				got = c23Sorted(mon.Resolve().ToSlice())
+				if got == prev || time.Now().After(deadline) {
+					break
+				}
+				prev = got
+				time.Sleep(300 * time.Microsecond)
+			}
+			t.Op(op[1:], c23Sorted(input.ToSlice()), got)
+		case op[1] == "resolve" && len(op) == 2:
+			start()
+			t.Op(op[1:], c23Sorted(mon.Resolve().ToSlice()))
+		}
+	}
+	for _, op := range c.Ops {
+		if p := verifh.Protect(func() { do(op) }); p != "" {
+			t.PropFail("panic", verifh.Str(p))
+		}
+	}
+	if mon != nil {
+		mon.Stop()
+		hosts.mu.Lock()
+		hosts.open = true
+		hosts.mu.Unlock()
+		select {
+		case hosts.permit <- struct{}{}:
+		case <-time.After(5 * time.Millisecond):
+		}
+	}
+	t.End()
+}
+
+func TestVerif_C23Monitor(t *testing.T) {
+	tr := verifh.Open("hcm")
+	defer tr.Close()
+	cases, replayOnly := verifh.InputCases("hcm")
+	for _, c := range cases {
+		c23MonExec(tr, c)
+		tr.Count("corpus_or_replay_cases", 1)
+	}
+	if replayOnly {
+		return
+	}
+	op := func(toks ...string) []string { return append([]string{"op"}, toks...) }
+	alpha := [][]string{
+		op("hosts", "a0:1,a1:1"), op("hosts", "a0:0,a1:1"), op("hosts", "a1:1,a2:1"), op("hosts", "a0:0"), op("tick"), op("resolve"),
+	}
+	var rec func(cfg []string, ops [][]string, d int)
+	rec = func(cfg []string, ops [][]string, d int) {
+		if d == 0 {
+			c23MonExec(tr, verifh.Case{Cfg: cfg, Ops: ops})
+			tr.Count("exhaustive_monitor", 1)
+			return
+		}
+		for _, o := range alpha {
+			rec(cfg, append(ops[:len(ops):len(ops)], o), d-1)
+		}
+	}
+	for d := 0; d <= verifh.Scale(3, 5); d++ {
+		rec(c23Cfg(1, 2), nil, d)
+	}
+	// longer scripted phases: fail until unhealthy, recover, leave, rejoin
+	r := verifh.NewRand(verifh.Seed(), "c23m")
+	for i := 0; i < verifh.Scale(150, 3000); i++ {
+		fails, passes := 1+r.Intn(3), 1+r.Intn(3)
+		var ops [][]string
+		for j := 4 + r.Intn(16); j > 0; j-- {
+			switch x := r.Intn(10); {
+			case x < 4:
+				var es []string
+				for h := 0; h < 3; h++ {
+					if r.Chance(3, 4) {
+						es = append(es, fmt.Sprintf("a%d:%s", h, verifh.Bool(r.Chance(1, 2))))
+					}
+				}
+				ops = append(ops, op("hosts", verifh.List(es)))
+			case x < 9:
+				ops = append(ops, op("tick"))
+			default:
+				ops = append(ops, op("resolve"))
+			}
+		}
+		c23MonExec(tr, verifh.Case{Cfg: c23Cfg(fails, passes), Ops: ops})
 		tr.Count("random_cases", 1)
 	}
 }
